@@ -95,7 +95,13 @@ def observe(ctx, case, apk_bytes):
     # history: the answers must not depend on which other queries were made before on the same object, nor on the order.
     # Other read-only queries are made (application label / icon go through the launcher lookup), then every query is
     # repeated in a rotated order and must answer as it did the first time.
-    for other in (a.get_app_name, a.get_app_icon, a.get_activity_aliases, a.get_intent_filters_probe if hasattr(a, 'get_intent_filters_probe') else None):
+    others = [a.get_app_name, a.get_app_icon, a.get_activity_aliases, a.is_androidtv, a.is_wearable, a.is_leanback,
+              a.is_multidex, a.get_declared_permissions, a.get_requested_aosp_permissions, a.get_requested_third_party_permissions,
+              lambda: list(a.get_all_attribute_value('activity', 'name', enabled='false')),
+              lambda: list(a.get_all_attribute_value('uses-permission', 'name', maxSdkVersion='18')),
+              lambda: a.get_attribute_value('application', 'label'), lambda: a.get_element('application', 'label')
+              if hasattr(a, 'get_element') else None]
+    for other in others:
         if other is None:
             continue
         try:
